@@ -30,7 +30,7 @@ def mergeUpdate (mask : UMask) (cur p : Pub) : Pub :=
 def updateCall (H : Hash) (p : Pub) (mask : UMask) (version : String) : PCall :=
   ⟨false,
    fun cur => if version ≠ "" ∧ cur.version ≠ version then some .failedPrecondition else none,
-   fun cur t => computed H t (mergeUpdate mask cur p), true⟩
+   fun cur t => computed H t (mergeUpdate mask cur p), true, false⟩
 
 /-- `ModelServer.AcknowledgePublication` on an existing publication (id and version non-empty) -/
 def ackCall (version : String) (receipt : Int) (reason : String) (allowAck : Bool) : PCall :=
@@ -38,6 +38,6 @@ def ackCall (version : String) (receipt : Int) (reason : String) (allowAck : Boo
    fun cur => if cur.version ≠ version then some .aborted
      else if acked cur then some (if allowAck then .already cur else .failedPrecondition)
      else none,
-   fun cur t => { cur with audience := some ⟨(cur.audience.map (·.name)).getD "", receipt, reason, some t⟩ }, true⟩
+   fun cur t => { cur with audience := some ⟨(cur.audience.map (·.name)).getD "", receipt, reason, some t⟩ }, true, false⟩
 
 end ScVerif.C20.Publication
